@@ -366,6 +366,31 @@ def check_rule_line(ctx, fmt):
             ok = shape == [('Lit', '"'), ('Hole', 'default.name'),
                            ('Lit', '": "'), ('Hole', 'default.check_str'),
                            ('Lit', '"\n')]
+            if not ok and len(segs) == 5 and shape[:3] == [
+                    ('Lit', '"'), ('Hole', 'default.name'),
+                    ('Lit', '": ')] and shape[4] == ('Lit', '\n'):
+                # the value written as a JSON scalar of default.check_str
+                h = segs[3].node
+                g = prog.callee_of(fmt, h) if isinstance(h, ast.Call) \
+                    else None
+                inner = h
+                if g is not None:
+                    rr = returns_of(g.node)
+                    if len(rr) == 1 and isinstance(rr[0].value, ast.Call) \
+                            and len(h.args) == 1 and U(
+                                rr[0].value.args[0]) == g.params[0]:
+                        inner = ast.Call(func=rr[0].value.func,
+                                         args=[h.args[0]],
+                                         keywords=rr[0].value.keywords)
+                        inner_mod = g.module
+                if isinstance(inner, ast.Call) and (prog.resolve(
+                        fmt.module, inner.func) or '').endswith(
+                            ('jsonutils.dumps', 'json.dumps')) and len(
+                                inner.args) == 1 and U(
+                                    inner.args[0]) == 'default.check_str' \
+                        and not any(k.arg == 'indent'
+                                    for k in inner.keywords):
+                    ok = True
             if ok:
                 detail = 'maps the policy name to its default check string'
             else:
